@@ -767,7 +767,7 @@ func (env *Env) evalCall(x *ECall) (*Val, error) {
 				}
 			}
 			return nil, fmt.Errorf("len of %s not supported", exprString(x.Args[0]))
-		case "base", "off":
+		case "base", "off", "cap":
 			if _, shadow := env.vars[id.Name]; !shadow && len(x.Args) == 1 {
 				v, err := env.eval(x.Args[0])
 				if err != nil {
@@ -778,6 +778,9 @@ func (env *Env) evalCall(x *ECall) (*Val, error) {
 				}
 				if id.Name == "base" {
 					return mathVal(v.L[0].T, "Int"), nil
+				}
+				if id.Name == "cap" {
+					return mathVal(v.L[3].T, "Int"), nil
 				}
 				return mathVal(v.L[1].T, "Int"), nil
 			}
@@ -853,6 +856,35 @@ func (env *Env) evalCall(x *ECall) (*Val, error) {
 				return nil, fmt.Errorf("typeof needs an interface value")
 			}
 			return mathVal(v.L[0].T, "Int"), nil
+		case "substr", "strcat":
+			// the string operations of the encoder (s[lo:hi], a + b) as specification functions
+			want := map[string]int{"substr": 3, "strcat": 2}[id.Name]
+			if _, shadow := env.vars[id.Name]; !shadow && len(x.Args) == want {
+				if _, isGhost := e.DB.Ghosts[id.Name]; !isGhost {
+					vals, err := env.evalArgs(x.Args)
+					if err != nil {
+						return nil, err
+					}
+					var ts []string
+					for i, v := range vals {
+						wantSort := "Str"
+						if id.Name == "substr" && i > 0 {
+							wantSort = "Int"
+						}
+						if len(v.L) != 1 || v.L[0].S != wantSort {
+							return nil, fmt.Errorf("argument %d of %s has the wrong sort", i+1, id.Name)
+						}
+						ts = append(ts, v.L[0].T)
+					}
+					var f string
+					if id.Name == "substr" {
+						f = e.declFun("substr", []string{"Str", "Int", "Int"}, "Str")
+					} else {
+						f = e.declFun("strcat", []string{"Str", "Str"}, "Str")
+					}
+					return &Val{T: types.Typ[types.String], L: []Sc{{"(" + f + " " + strings.Join(ts, " ") + ")", "Str"}}}, nil
+				}
+			}
 		case "bytes":
 			// abstraction of the content of a []byte value in the current state
 			if len(x.Args) == 1 {
@@ -1332,7 +1364,31 @@ func (e *Enc) bytesOf(st *State, v *Val) (*Val, error) {
 	e.declSort("Bytes")
 	f := e.declFun("bseq", []string{"(Array Int Int)", "Int", "Int"}, "Bytes")
 	h := e.heapGet(st, "S|"+typeStr(sl.Elem())+"|", "(Array Int (Array Int Int))")
+	e.bytesInterpretation(f)
 	return &Val{L: []Sc{{"(" + f + " (select " + h + " " + v.L[0].T + ") " + v.L[1].T + " " + v.L[2].T + ")", "Bytes"}}}, nil
+}
+
+// bytesInterpretation: when the prelude declares the uninterpreted ghost functions `blen(b bytes) int` and
+// `bat(b bytes, i int) int`, the abstract content of a []byte is tied to the slice it abstracts:
+// blen(bytes(s)) == len(s) and bat(bytes(s), i) == s[i] for 0 <= i < len(s). Without these ghosts bytes() stays opaque.
+func (e *Enc) bytesInterpretation(bseq string) {
+	if _, done := e.declared["bytes!interp"]; done {
+		return
+	}
+	gl, ok1 := e.DB.Ghosts["blen"]
+	ga, ok2 := e.DB.Ghosts["bat"]
+	if !ok1 || !ok2 || gl.Body != nil || ga.Body != nil || len(gl.Params) != 1 || len(ga.Params) != 2 {
+		return
+	}
+	e.declared["bytes!interp"] = "done"
+	ln, ls, err1 := e.ghostSymbol(gl)
+	an, as, err2 := e.ghostSymbol(ga)
+	if err1 != nil || err2 != nil || ls != "Int" || as != "Int" {
+		return
+	}
+	e.emit("; bytes() interpretation: length and elements of the abstracted slice")
+	e.assert("(forall ((a (Array Int Int)) (o Int) (n Int)) (! (=> (<= 0 n) (= (" + ln + " (" + bseq + " a o n)) n)) :pattern ((" + bseq + " a o n))))")
+	e.assert("(forall ((a (Array Int Int)) (o Int) (n Int) (i Int)) (! (=> (and (<= 0 i) (< i n)) (= (" + an + " (" + bseq + " a o n) i) (select a (+ o i)))) :pattern ((" + an + " (" + bseq + " a o n) i))))")
 }
 
 // contentOf: abstract content of a slice value (any element type) in state st.
